@@ -5,33 +5,88 @@ import EspadaVerif.Lemmas.TextDefs
 import EspadaVerif.Props.C09
 
 namespace EspadaVerif.C10
-open EspadaVerif TextDefs
+open EspadaVerif TextDefs TokenFacts RangeAux
 
 variable {W : Type}
 
 /-- **C10 (combos).** Whatever string is parsed as a range, every entry is a combo of two different valid cards
 (stored in canonical order). -/
 theorem C10_combo (wt : WText W) (s : Bytes) (r : HandRange W) (h : parseRange wt s = .ok r) :
-    ∀ e ∈ r, ComboOk e.1 := by
-  sorry
+    ∀ e ∈ r, ComboOk e.1 :=
+  parseRange_comboOk wt s r h
 
 /-- **C10 (weights).** Every weight of a parsed token / range lies in the weight domain (= [0,1]), given only that
-the weight grammar's texts parse into the domain and that 1 is in it. -/
+the weight grammar's texts parse into the domain, that 1 is in it, and that the empty text is not a number
+(`hempty`: a token without `:w` suffix reaches `f32::from_str("")`, which must fail for the weight to be 1). -/
 theorem C10_weight_token (wt : WText W) (inDom : W → Prop) (hone : inDom wt.one)
     (hparse : ∀ t w, isWeightText t = true → wt.parseW t = some w → inDom w)
+    (hempty : wt.parseW [] = none)
     (s : Bytes) (t : Token W) (h : parseToken wt s = .ok t) : inDom t.prob := by
-  sorry
+  obtain ⟨_, rest, hs, hp⟩ := parseToken_tokenOk wt s t h
+  rw [hp]
+  unfold isWeightSuffix at hs
+  split at hs
+  · rw [sufW_nil, hempty]; exact hone
+  · rename_i w
+    rw [sufW_colon]
+    cases hw : wt.parseW w with
+    | none => exact hone
+    | some x => exact hparse w x hs hw
+  · cases hs
 
 theorem C10_weight (wt : WText W) (inDom : W → Prop) (hone : inDom wt.one)
     (hparse : ∀ t w, isWeightText t = true → wt.parseW t = some w → inDom w)
+    (hempty : wt.parseW [] = none)
     (s : Bytes) (r : HandRange W) (h : parseRange wt s = .ok r) : ∀ e ∈ r, inDom e.2 := by
-  sorry
+  obtain ⟨r', hr', hP⟩ := parseRange_spec wt (fun e => inDom e.2) (by
+    intro piece t es ht hes e he
+    obtain ⟨es', hes', hall⟩ := C09.C09_use_total wt piece t ht
+    rw [hes] at hes'; cases hes'
+    show inDom e.2
+    rw [(hall e he).2]
+    exact C10_weight_token wt inDom hone hparse hempty piece t ht) s
+  rw [h] at hr'; cases hr'
+  exact hP
 
 /-- the weight grammar admits exactly `0`, `0.d+`, `1`, `1.0+` -/
 theorem C10_grammar (t : Bytes) : isWeightText t = true ↔
     (t = [48] ∨ (∃ ds, ds ≠ [] ∧ (∀ d ∈ ds, 48 ≤ d ∧ d ≤ 57) ∧ t = 48 :: 46 :: ds)
      ∨ t = [49] ∨ (∃ zs, zs ≠ [] ∧ (∀ z ∈ zs, z = 48) ∧ t = 49 :: 46 :: zs)) := by
-  sorry
+  constructor
+  · intro h
+    unfold isWeightText at h
+    split at h
+    · exact .inl rfl
+    · rename_i d ds
+      refine .inr (.inl ⟨d :: ds, by simp, ?_, rfl⟩)
+      intro x hx
+      have := List.all_eq_true.mp h x hx
+      simpa [isDigit] using this
+    · exact .inr (.inr (.inl rfl))
+    · rename_i d ds
+      refine .inr (.inr (.inr ⟨d :: ds, by simp, ?_, rfl⟩))
+      intro x hx
+      have := List.all_eq_true.mp h x hx
+      simpa using this
+    · cases h
+  · rintro (rfl | ⟨ds, hne, hd, rfl⟩ | rfl | ⟨zs, hne, hz, rfl⟩)
+    · rfl
+    · cases ds with
+      | nil => exact absurd rfl hne
+      | cons d ds =>
+        simp only [isWeightText]
+        apply List.all_eq_true.mpr
+        intro x hx
+        have := hd x hx
+        simp [isDigit, this.1, this.2]
+    · rfl
+    · cases zs with
+      | nil => exact absurd rfl hne
+      | cons d ds =>
+        simp only [isWeightText]
+        apply List.all_eq_true.mpr
+        intro x hx
+        simp [hz x hx]
 
 /-- **C10 (probabilities).** A product, taken left to right from 1, of weights of the domain stays in the domain,
 for every product under which the domain is closed (binary32 multiplication on [0,1] is: rounding is
@@ -39,7 +94,14 @@ monotone and fixes 0 and 1). -/
 theorem C10_prob (ops : WOps W) (inDom : W → Prop) (hone : inDom ops.one)
     (hmul : ∀ a b, inDom a → inDom b → inDom (ops.mul a b)) (ws : List W) (h : ∀ w ∈ ws, inDom w) :
     inDom (ws.foldl ops.mul ops.one) := by
-  sorry
+  have key : ∀ (ws : List W) (acc : W), inDom acc → (∀ w ∈ ws, inDom w) → inDom (ws.foldl ops.mul acc) := by
+    intro ws
+    induction ws with
+    | nil => intro acc ha _; exact ha
+    | cons w ws ih =>
+      intro acc ha hw
+      exact ih _ (hmul acc w ha (hw w List.mem_cons_self)) (fun x hx => hw x (List.mem_cons_of_mem _ hx))
+  exact key ws ops.one hone h
 
 /-- **C10 (cards).** No showdown enumerated from proper ranges (in particular parsed ones, by `C10_combo`)
 contains the same card twice: this is `C02_payload`. -/
@@ -48,6 +110,7 @@ theorem C10_cards (ops : WOps W) (flop : List Card) (ranges : List (List (Combo 
     (hd : d ∈ Spec.deals (flop.map Card.code) (C02.specEntries ranges) a b) :
     ∃ sd : Showdown W, C02.showdownOfDeal ops flop d = .ok (some sd)
       ∧ (sd.board ++ sd.players.flatMap (fun p => [p.hole.fst, p.hole.snd])).Nodup := by
-  sorry
+  obtain ⟨sd, h1, h2, _, _, h5⟩ := C02.C02_payload ops flop ranges a b h d hd
+  exact ⟨sd, h1, by rw [h2]; exact h5⟩
 
 end EspadaVerif.C10
